@@ -36,6 +36,29 @@ def mm_job(style, gran, k, s, pre, tier, timeout, arena=48, unwind=None):
 for st in MM_UNITS:
     mm_job(st, 4, 2, 8, 0, 'quick', 1500)
     mm_job(st, 4, 3, 8, 0, 'thorough', 5400)
+# hole managers keep a "current hole" / best-fit state that only a longer history reaches: a shaped prefix of 2 requests with a nondet
+# recycled subset, then 4 nondet steps with sizes up to 14 (a split that leaves a remainder needs sizes that differ by >= 5)
+# (measured: heap_style with PRE=2, K=4, S=14 is 2.6M SSA steps and exceeds 12 GB in propositional conversion -> shaped start states below instead)
+# shaped start states: a fixed script (n: request n slots, -k: recycle the k-th chunk) followed by K nondet steps with sizes up to 14
+SCRIPTS = {'curhole': ('12,5,-1,6', 3, 48, 'a hole of 12 split by a request of 6: the remainder (for the heap manager: its current hole) sits directly before the last chunk'),
+           'holes3': ('8,4,9,4,10,4,-1,-3,-5', 6, 64, 'three separate holes of 8, 9 and 10 slots between live chunks'),
+           'curheap': ('12,4,10,4,-1,-3,6', 5, 64, 'a partly used hole and a second hole of 10 slots')}
+def shaped_job(style, sc, k, tier, timeout, internals=False):
+    script, nreq, arena, what = SCRIPTS[sc]
+    units = ['memory.cc', 'memstats.cc', 'error.cc'] + ([] if internals else [MM_UNITS[style]])
+    d = {'STYLE': style, 'GRAN': 4, 'K': k, 'S': 14, 'PRE': nreq, 'MINSZ': 4, 'SCRIPT': script}
+    if internals: d['HEAP_INTERNALS'] = 1
+    J('C18', 'c18_shaped_%s_%s_k%d%s' % (style.replace('_style', ''), sc, k, '_int' if internals else ''), 'c18_mm.cc', 'c18_shaped', units=units, defines=d,
+      gxx_units=['io.cc', 'memory_managers/malloc_style.cc'], unit_defines={'MEDDLY_VERIF_ARENA': arena}, arena=('uint32_t', arena), unwind=k + nreq + 4, timeout=timeout, tier=tier,
+      covers=[2] + ([6] if internals and sc != 'holes3' else []),
+      desc='%s, 4-byte slots: start state built by the script [%s] (%s), then %d nondet step(s) (request size in [4,14] / recycle any live chunk)%s; arena %d slots (hook H1), growth beyond it cut' % (
+          style, script, what, k, '; plus the heap manager\'s own bookkeeping (current hole, heap root inside the used part of the arena)' if internals else '', arena))
+for sc in SCRIPTS:
+    shaped_job('heap_style', sc, 1, 'quick' if sc == 'curhole' else 'thorough', 1500, internals=True)
+    shaped_job('heap_style', sc, 2, 'thorough', 5400, internals=True)
+    for st in ('array_grid_style', 'orig_grid_style'):
+        shaped_job(st, sc, 2, 'thorough', 5400)
+shaped_job('heap_style', 'curhole', 3, 'thorough', 7200, internals=True)
 for st in ('orig_grid_style', 'freelist_style'):
     mm_job(st, 2, 3, 8, 0, 'thorough', 5400)
     mm_job(st, 8, 3, 8, 0, 'thorough', 5400)
@@ -188,3 +211,15 @@ for root, be in (('c01_norm_evplus', 'sat'), ('c01_norm_evstar', 'z3')):
       backend=be, covers=[1, 2], tier=('quick' if 'plus' in root else 'thorough'),
       desc='normalize_%s from the real forest.cc on a real full unpacked node of size 3: children symbolic handles (0 = transparent), edge values symbolic (%s)' % (
           'evplus<long>' if 'plus' in root else 'evstar<float>', '|v| < 2^60' if 'plus' in root else 'non-zero finite floats'))
+
+# ---------------------------------------------------------------- C07 (L2: real compute table over real node headers)
+C07_UNITS = ['storage/ct_styles.cc', 'compute_table.cc', 'ct_entry_type.cc', 'ct_entry_key.cc', 'ct_entry_result.cc', 'ct_vector.cc', 'ct_initializer.cc',
+             'node_headers.cc', 'arrays.cc', 'memory_managers/freelists.cc', 'memory.cc', 'memstats.cc', 'statset.cc', 'error.cc']
+for style in (2, 3, 0, 1):
+    for stale in (0, 1, 2):
+        J('C07', 'c07_ct_s%d_r%d' % (style, stale), 'c07_ct.cc', 'c07_ct', units=C07_UNITS, unit_defines={'MEDDLY_VERIF_CT_SIZE': 8, 'MEDDLY_VERIF_ARENA': 32},
+          defines={'NSTEPS': 3, 'CTSTYLE': style, 'STALE': stale, 'PESS': 1}, ir_exclude=['forest.cc'], gxx_units=['ALL'], gxx_extra=['-Wl,--allow-multiple-definition'],
+          cut='counter_array12expand8to16|counter_array13expand16to32|address_array12expand32to64|node_headers16expandHandleListEv|node_headers16shrinkHandleListEv',
+          unwind=6, unwind_re={r'^__ll2c_mem': 40, r'_M_fill_insert': 40, r'_M_default_append': 40}, timeout=3000, mem_gb=20, object_bits=12, tier='exp',
+          desc='real compute table (%s, stale removal %s) with one entry type (node,node)->node over real node headers; 8 buckets (hook H4); 3 nondet steps from {find-then-add, find, release node, new node, removeStales}' % (
+              ['monolithic chained', 'monolithic unchained', 'per-operation chained', 'per-operation unchained'][style], ['aggressive', 'moderate', 'lazy'][stale]))
